@@ -24,6 +24,7 @@ COMPILER_REPLAYS = {
     "u_scope": ["replay/c05/run.sh"],
     "u_closenv": ["replay/c08/run.sh"],
     "u_strlit": ["replay/c11/run.sh"],
+    "u_dynvis": ["replay/c17/run.sh"],
 }
 
 
